@@ -421,6 +421,10 @@ class _Interp(AbsInt):
                     return ("content", v[2])
                 return ("content", True)
             argt = tuple(norm(bound[p]) for p in params)
+            if self.fi.name in ("copy", "__copy__", "__deepcopy__") and self.fi.cls == eng.cls and params and all(a == NONE for a in argt):
+                # a copy built from no view at all is an empty object: the source's content is dropped
+                self.problem("TS9", c, f"{eng.cls}.copy can construct its result from no view at all (both arguments None): the copy is empty",
+                             "copy() hands neither view to the new object")
             post, probs = eng.summary("__init__", (S, S, False, False), argt)
             for pr in probs:
                 self.problem(pr.rule, c, pr.msg, pr.construct)
